@@ -6,6 +6,7 @@ users multiset, vt.wf."""
 from __future__ import annotations
 
 import itertools
+import copy
 import random
 
 from vt import monitor, netgen, refsem, wf
@@ -24,7 +25,7 @@ ASSUMPTIONS = ['vt.refsem truth tables; vt.wf; equivalence of a replacement is j
 REQUIRED = {'mon:rename_gate.checked': 200, 'mon:replace_inputs.checked': 100, 'mon:replace_subcircuit.checked': 60,
             'mon:remove_gate.checked': 100, 'replace:accepted': 40, 'replace:documented_error': 10,
             'replace:different_structure': 15, 'remove:refused_used_gate': 30, 'remove:output_gate': 20,
-            'rename:dup_operand_user': 10, 'rename:block_member': 10}
+            'rename:dup_operand_user': 10, 'rename:block_member': 10, 'history_circuit': 100}
 
 CUR = {'ctx': None, 'case': None}
 
@@ -338,10 +339,13 @@ def raise_replace_sub(st, args, kwargs, exc):
 def pre_remove(args, kwargs):
     c = args[0]
     lbl = args[1] if len(args) > 1 else kwargs['gate_label']
-    if not _clean(c):
-        return None
     net = refsem.net_of(c)
     users = [l for l, (t, ops) in net.gates.items() for o in ops if o == lbl]
+    if not _clean(c):
+        # "succeeds only for a gate nobody uses" is a statement about the operand relation: it is decided even when the
+        # circuit's own bookkeeping was already off before the call (the other clauses need a well-formed start)
+        closed = all(o in net.gates for t, ops in net.gates.values() for o in ops)
+        return {'dirty': True, 'users': users if closed else [], 'exists': lbl in net.gates}
     return {'net': net, 'users': users, 'exists': lbl in net.gates}
 
 
@@ -350,13 +354,15 @@ def post_remove(st, args, kwargs, result):
     c = args[0]
     lbl = args[1] if len(args) > 1 else kwargs['gate_label']
     ctx = CUR['ctx']
-    if st is None:
-        ctx.mon('remove_gate', 'skipped_pre_not_wf')
-        return
-    ctx.mon('remove_gate')
-
     def V(disc, msg):
         ctx.violation('Circuit.remove_gate', 'wrong_result', disc, msg, CUR['case'])
+
+    if st.get('dirty'):
+        ctx.mon('remove_gate', 'skipped_pre_not_wf')
+        if st['users']:
+            V('removed_used_gate', 'gate %r with users %r was removed' % (lbl, st['users']))
+        return
+    ctx.mon('remove_gate')
 
     if st['users']:
         V('removed_used_gate', 'gate %r with users %r was removed' % (lbl, st['users']))
@@ -390,7 +396,7 @@ def post_remove(st, args, kwargs, result):
 
 def raise_remove(st, args, kwargs, exc):
     ctx = CUR['ctx']
-    if st is None:
+    if st.get('dirty'):
         return
     ctx.mon('remove_gate')
     if st['users']:
@@ -409,6 +415,14 @@ def install(ctx):
 # ------------------------------------------------------------------ workload
 
 def _build(net, case, rng, blocks=True):
+    m = CUR.get('master')
+    if m is not None:
+        with monitor.suspended():
+            c = copy.deepcopy(m)
+            if not blocks:
+                for b in list(c.blocks):
+                    c.delete_block(b)
+            return c
     with monitor.suspended():
         c = netgen.build(net, rng=rng, shuffle_storage=case.get('shuffle', False))
         if blocks and case.get('block'):
@@ -422,8 +436,22 @@ def _build(net, case, rng, blocks=True):
 def check_case(case, ctx):
     from cirbo.core.circuit import Circuit
     CUR['case'] = case
+    CUR['master'] = None
     net = netgen.from_description(case['net'])
     rng = random.Random(case['rseed'])
+    if case.get('history') is not None:
+        # the circuit under test is one that was reached through a history of public edits (into_bench included),
+        # made with the monitors on; every later phase works on clones of that object
+        try:
+            m = _build(net, case, rng)
+            netgen.random_edits(m, random.Random(case['history']), allow_into_bench=True)
+            with monitor.suspended():
+                net = refsem.net_of(m)
+        except Exception as e:
+            ctx.count('build_failed:' + type(e).__name__)
+            return
+        CUR['master'] = m
+        ctx.count('history_circuit')
     sh = refsem.structural_hash(net)
     users = {}
     for l, (t, ops) in net.gates.items():
@@ -607,9 +635,13 @@ def _make_replacement(sub, sins, souts, kind, rng, k):
 
 def gen_case(rng, spec):
     shape = rng.choice(netgen.SHAPES)
-    net = netgen.rand_net(rng, shape=shape, max_in=4, max_g=spec.get('max_g', 10), max_arity=4,
-                          p_repeat_operand=0.2 if rng.random() < 0.4 else None)
+    types = None
+    if rng.random() < 0.3:
+        types = ['LNOT', 'RNOT', 'LIFF', 'RIFF', 'LT', 'GT', 'LEQ', 'GEQ', 'AND', 'OR', 'XOR', 'NOT']
+    net = netgen.rand_net(rng, shape=shape, max_in=4, max_g=spec.get('max_g', 10), max_arity=4, types=types,
+                          p_repeat_operand=rng.choice([0.2, 0.4]) if rng.random() < 0.4 else None)
     return {'kind': 'random', 'shape': shape, 'net': netgen.describe(net), 'rseed': rng.getrandbits(32),
+            'history': rng.getrandbits(32) if rng.random() < 0.4 else None,
             'shuffle': rng.random() < 0.25, 'block': rng.random() < 0.4, 'cofactors': 20, 'slices': 5}
 
 
